@@ -206,6 +206,10 @@ RULE = ("every listed wait strategy instance (fixed, exponential incl. exp_base<
         "t_start(k+1) - t_fail(k) is compared with the tenacity-documented delay (lower bound for jittered ones); "
         "also when each retry comes due while the step's only worker is busy, and when the loop reaches each failure late "
         "(it was busy when the step failed); non-trivial = the documented delays of the case are not all equal")
+from vmc.tables import _ROUND6 as _R6  # noqa: E402
+
+RULE += _R6["C06"]
+
 
 
 def run(tier: str, seed: int) -> CheckResult:
